@@ -304,6 +304,15 @@ func (g *storeGenState) refused() {
 		if g.r.Intn(2) == 0 {
 			pts = append(pts, sPoint{Type: "nodeType", Time: g.tick(), Text: ""})
 		}
+		if g.r.Intn(3) == 0 {
+			// ... placed directly below the sentinel "root" (the request that would make it the instance's root);
+			// afterwards the real root must still be the root: it is listed as such and its tombstone is still refused
+			g.add("refused-no-type-below-root", sOp{Kind: "ep", Node: id, Parent: "root", Points: pts})
+			if g.r.Intn(2) == 0 {
+				g.add("refused-root-tombstone", sOp{Kind: "ep", Node: storeRootID, Parent: "root", Points: []sPoint{g.tombPoint(1)}})
+			}
+			return
+		}
 		g.add("refused-no-type", sOp{Kind: "ep", Node: id, Parent: n, Points: pts})
 	case 4: // NaN somewhere in a node point batch
 		n := g.pickNode()
